@@ -202,3 +202,29 @@ func Barrier(w *wal.WAL) {
 	}
 	_ = w.DeleteRange(l+2, l+2)
 }
+
+// DirVsMeta compares the simulated directory with the file set named by the committed
+// metadata: extra = files no segment of the metadata accounts for, missing = listed
+// segments without a file.
+func DirVsMeta(fs *simfs.FS) (extra, missing []string) {
+	st, _ := fs.MetaState()
+	want := map[string]bool{}
+	for _, si := range st.Segments {
+		want[segment.FileName(si)] = true
+	}
+	have := map[string]bool{}
+	for _, n := range fs.Names() {
+		have[n] = true
+		if !want[n] {
+			extra = append(extra, n)
+		}
+	}
+	for n := range want {
+		if !have[n] {
+			missing = append(missing, n)
+		}
+	}
+	sort.Strings(extra)
+	sort.Strings(missing)
+	return
+}
